@@ -1,6 +1,6 @@
 #!/usr/bin/env python3
 """C12: encoded bytes follow the Parquet encoding specifications (both directions against spec-written codecs)."""
-import os, sys, shutil, random, struct, hashlib
+import re, os, sys, shutil, random, struct, hashlib
 HERE = os.path.dirname(os.path.abspath(__file__))
 sys.path.insert(0, os.path.join(HERE, '..', 'bin')); sys.path.insert(0, os.path.join(HERE, '..', 'ref'))
 import vlib
@@ -145,7 +145,13 @@ def ref_encode(c, rng):
         return E.bitpack(vals, c['p1']), 'lsb-first'
     if k in (4, 5):
         junk = rng.random() < 0.5
-        return E.delta_encode(vals, 32 if k == 4 else 64, junk_unused_widths=junk, rng=rng), 'junk-unused-widths' if junk else 'zero-unused-widths'
+        # block layouts the specification allows (block a multiple of 128, mini-blocks a multiple of 32 values); carquet's own encoder only writes 128/4
+        geo = rng.choice([(128, 4)] * 4 + [(128, 1), (128, 2), (256, 8), (256, 4), (256, 2), (384, 4), (512, 16), (1024, 32), (1024, 1)])
+        return E.delta_encode(vals, 32 if k == 4 else 64, junk_unused_widths=junk, rng=rng, block=geo[0], nmini=geo[1]), ('junk-unused-widths' if junk else 'zero-unused-widths') + ('' if geo == (128, 4) else ':layout-%d-%d' % geo)
+    if k in (6, 7):
+        geo = rng.choice([(128, 4)] * 3 + [(128, 1), (256, 8), (256, 2), (512, 16), (1024, 1)])
+        if geo != (128, 4):
+            return (E.delta_length_encode if k == 6 else E.delta_strings_encode)(vals, block=geo[0], nmini=geo[1]), 'std:layout-%d-%d' % geo
     if k == 6:
         return E.delta_length_encode(vals), 'std'
     if k == 7:
@@ -257,7 +263,7 @@ def main(c):
             for cs, (data, style), (st, aux, out) in zip(part, encd[s], outs):
                 name = KN[cs['kind']]
                 c.case(hashlib.sha1(data + bytes([cs['kind']])).hexdigest()[:16], nontrivial=cs['n'] >= 2)
-                c.count('reference_encoded_' + name); c.count('ref_style_' + style)
+                c.count('reference_encoded_' + name); c.count('ref_style_' + style); style = re.sub(r':layout-\d+-\d+', ':other-block-layout', style)   # one key for all layouts
                 if cs['n'] == 0 and cs['kind'] in (6, 7):
                     continue
                 if st != 0:
@@ -286,7 +292,7 @@ def main(c):
     c.rule = ('value sequences from the C11-style generators (run-structured ints at every width, delta laws incl. wrap-around and chosen widths, byte arrays with shared prefixes, all PLAIN types, '
               'BSS widths 1..40) go through carquet\'s encoder and the spec-written decoder (ref/encodings_ref.py), and through the spec-written encoder (7 RLE styles incl. multi-group bit-packed runs, '
               'zero-length runs, padded final groups with non-zero padding, over-long final run; arbitrary width bytes for unused delta mini-blocks) and carquet\'s decoder. distinct = sha1(values/bytes, kind)')
-    c.assumptions = ['delta geometry fixed to block 128 / 4 mini-blocks', 'raw bit packing is the LSB-first packing used inside the hybrid and delta encodings (counts multiple of 8)',
+    c.assumptions = ['raw bit packing is the LSB-first packing used inside the hybrid and delta encodings (counts multiple of 8)',
                      'an encoder refusal (non-OK) is counted, not a failure']
     for k in ('carquet_encoded_rle', 'carquet_encoded_delta64', 'reference_encoded_rle', 'reference_encoded_delta32', 'ref_style_bitpack_only', 'ref_style_zero_runs', 'ref_style_pad_nonzero', 'ref_style_junk-unused-widths'):
         c.require(k)
